@@ -1,7 +1,14 @@
 import Dasp.Driver.Loop
+import Dasp.Driver.Sample
 open Dasp.Driver
 
--- stub: replaced when property C03 is wired in
 def main : IO Unit := runDriver fun
+  | "addamp" :: rest => sampleLine "addamp" rest
+  | "mulamp" :: rest => sampleLine "mulamp" rest
+  | "fr" :: rest => frameLine rest
+  | "fromfn" :: rest => genericFrameLine "fromfn" rest
+  | "fromsamples" :: rest => genericFrameLine "fromsamples" rest
+  | "zipmap" :: rest => genericFrameLine "zipmap" rest
+  | "map" :: rest => genericFrameLine "map" rest
   | [] => ""
   | _ => "bad-op"
